@@ -341,16 +341,33 @@ def r8_cursor_discipline(ctx):
                 seq = getattr(blk, fld)
         nxt = seq[seq.index(n) + 1] if seq is not None and seq.index(n) + 1 < len(seq) else None
         adv_ok = isinstance(nxt, ast.AugAssign) and astx.is_name(nxt.target, cur) and isinstance(nxt.op, ast.Add) and astx.u(nxt.value) == f"len({x})"
+        # (`cur = cur + len(x)` is the same advance)
+        if isinstance(nxt, ast.Assign) and len(nxt.targets) == 1 and astx.is_name(nxt.targets[0], cur) and astx.u(nxt.value) in (f"{cur} + len({x})", f"len({x}) + {cur}"):
+            adv_ok = True
         # the written value is (re)bound in the same block before the store, so each store writes fresh material
         fresh = any(isinstance(a_, ast.Assign) and x in astx.assigned_names(a_.targets[0]) for s_ in seq[: seq.index(n)] for a_ in ast.walk(s_)) if seq is not None else False
         ctx.check(width_ok and adv_ok and fresh, f, n, f"{f.short}: cursor `{cur}` fills [{cur} : {cur}+len({x})] and then advances by len({x}) in the same block", astx.u(n)[:80],
                   f"`{astx.u(n)[:70]}`: slice width = len({x}): {width_ok}; next statement advances the cursor by len({x}): {adv_ok}; value bound in the same block: {fresh}. "
                   "Otherwise later writes overwrite earlier ballots (votes vanish) or leave gaps")
         # the cursor starts at 0 before the first store
-        inits = [dv for st, dv in astx.defs_of(f.node, cur) if dv is not None]
+        inits = [dv for st, dv in astx.defs_of(f.node, cur) if dv is not None and cur not in astx.free_names(dv)]
         ctx.check(len(inits) >= 1 and all(astx.is_const(d, 0) for d in inits), f, n, f"{f.short}: cursor `{cur}` starts at 0", "", f"cursor `{cur}` is initialised with something other than 0")
-    if len(sites) < 5:
-        ctx.vanished("cursor-filled lists" + ": " + f"only {len(sites)} cursor stores found (STV steps, random_transfer, tiebroken_ranking expected)")
+    # a list grown with extend / += needs no cursor: such sites stand in for the cursor stores they replace
+    grown = 0
+    for name in ("STV._simultaneous_elect_step", "STV._single_elect_step", "random_transfer", "tiebroken_ranking"):
+        try:
+            g = prog.find_func(name)
+        except AnalysisError:
+            continue
+        for n in astx.walk_own(g.node):
+            if (isinstance(n, ast.Call) and isinstance(n.func, ast.Attribute) and n.func.attr == "extend" and isinstance(n.func.value, ast.Name)) \
+                    or (isinstance(n, ast.AugAssign) and isinstance(n.op, ast.Add) and isinstance(n.target, ast.Name) and not astx.u(n.value).startswith("len(")
+                        and isinstance(astx.unique_def(g.node, n.target.id), (ast.List, type(None))) and isinstance(n.value, (ast.Name, ast.Call, ast.BinOp, ast.Subscript))
+                        and any(isinstance(dv, ast.List) for _st, dv in astx.defs_of(g.node, n.target.id))):
+                grown += 1
+                ctx.ok(g, n, f"{g.short}: list grown at its end (extend / +=): nothing can be overwritten or left as a gap", astx.u(n)[:70])
+    if len(sites) + grown < 4:
+        ctx.vanished("cursor-filled lists" + ": " + f"only {len(sites)} cursor stores and {grown} extend / += sites found (STV steps, random_transfer, tiebroken_ranking expected)")
 
 
 def r9_selector_partition(ctx):
@@ -394,7 +411,7 @@ RULES = [
     ("C03.R7", r7_surplus_factor, 3, "fractional rule: weight*(tally-threshold)/tally on winner-first ballots, full weight otherwise (formula normal form)"),
     ("C03.R9", r9_selector_partition, 4, "prerequisite: the selector's elected + remaining partition its input (no candidate's pile is lost)"),
     ("C03.R10", r10_transfer_wiring, 2, "prerequisite: each elected candidate's own pile goes through the transfer function once (C02.R8)"),
-    ("C03.R8", r8_cursor_discipline, 10, "every cursor-filled ballot list advances its cursor by exactly what was written, in the same block"),
+    ("C03.R8", r8_cursor_discipline, 5, "every cursor-filled ballot list advances its cursor by exactly what was written, in the same block"),
 ]
 
 TR = "src/votekit/elections/transfers.py"
